@@ -844,7 +844,8 @@ def do_indent(
     newline = "\n"
 
     if isinstance(s, Markup):
-        indention = Markup(indention)
+        # a plain string given as indentation is data, not markup
+        indention = escape(indention)
         newline = Markup(newline)
 
     s += newline  # this quirk is necessary for splitlines method
